@@ -3,7 +3,7 @@ import json, glob, re, os
 rows = {}
 for f in ['/verif/.work/mutfinal.txt']:
     for line in open(f):
-        m = re.match(r'(C\d+b?) rc=(\d) wall=(\d+)s :: (.*)', line)
+        m = re.match(r'(C\d+[bc]?) rc=(\d) wall=(\d+)s :: (.*)', line)
         if not m:
             continue
         key, rc, wall, rest = m.groups()
@@ -16,11 +16,11 @@ out = ['# Seeded changes vs. the quick checks', '',
        'demonstration exits 1 with and 0 without the change), and was then given to the property\'s quick check in its scratch worktree',
        '(`tools/trymut.sh <worktree> <property>`, i.e. `VERIF_REPO=<worktree> ./check <property> quick`).  rc=1 means a reproduced VIOLATION.', '',
        '| change | property | what it is | needs | check result | violation tags reported |', '|---|---|---|---|---|---|']
-for key in sorted(rows, key=lambda k: (k[:3], len(k))):
+for key in sorted(rows, key=lambda k: (k[:3], k[3:])):
     pid, rc, wall, tags = rows[key]
     meta = json.load(open(f'/verif/seeded/{key}/meta.json')) if os.path.exists(f'/verif/seeded/{key}/meta.json') else {}
     out.append(f"| {key} | {pid} | {meta.get('change', '')} | {meta.get('needs_to_manifest', '')} | rc={rc} ({wall}s) | {'; '.join(tags) or '-'} |")
-out += ['', 'History: the first versions of the checks missed C03, C04, C05, C06, C08 (first wave) and C01b, C04b, C05b, C06b, C08b, C10b, C13b, C16b (second wave);',
-        'DESIGN.md section 13 lists what was added for each.  The table shows the state after those additions.']
+out += ['', 'History: DESIGN.md section 13 lists which changes the first versions of the checks missed and what was added for each.',
+        'The table shows the latest run of each change against the current checks.']
 open('/verif/seeded/RESULTS.md', 'w').write('\n'.join(out) + '\n')
 print(len(rows), 'rows')
